@@ -12,7 +12,7 @@ from . import layoutb
 
 PROP = "C14"
 
-INITIAL = [1, 2, 3, 4, 7, 1024]
+INITIAL = [0, 1, 2, 3, 4, 7, 1024]
 RESIZE = [1.01, 1.5, 2.0, 3.7]
 INTS = [0, 1, -1, 2, 3, 5, 7, 10, 100, 255, 256, 65535, 2**31 - 1, -2**31, 2**31, 2**53, 2**53 + 1, -(2**53) - 1,
         2**63 - 1, -2**63]
